@@ -634,6 +634,14 @@ class World:
                     if hasattr(self, 'wall'):
                         self.wall.burn(op['w'])
                     continue
+                elif k == 'beat':
+                    # a long, regular life: n periods of d, each costing w of wall time (real-time runs)
+                    self.rec('O', pid, i, 'beat', op.get('n', 0))
+                    for _ in range(int(op.get('n', 0))):
+                        if hasattr(self, 'wall'):
+                            self.wall.burn(op.get('w', 0))
+                        yield self.mk_timeout(op.get('d', 1))
+                    continue
                 elif k == 'sync':
                     if hasattr(env, 'sync'):
                         env.sync()
